@@ -3,7 +3,13 @@ package pilosa
 // In-package exports for the black-box (package pilosa_test) harnesses written
 // by the lead (C18/C19/C08/C09/C29). Go's export_test.go idiom, via overlay.
 
-import "sort"
+import (
+	"bytes"
+	"sort"
+
+	vk "github.com/pilosa/pilosa/internal/verifkit"
+	"github.com/pilosa/pilosa/roaring"
+)
 
 // VerifViewBits reports, for every view of f that has a fragment for the
 // column's shard, whether (row, col) is set there.
@@ -42,4 +48,168 @@ func VerifSnapshotAll(f *Field) {
 			_ = frag.Snapshot()
 		}
 	}
+}
+
+// ---------------------------------------------------------------- hostile roaring payloads (C06)
+
+// VerifHostileRoaring returns a byte string for the import/stored-data entry
+// points: a valid seed (Pilosa format, official format with and without runs,
+// optionally followed by op-log entries) damaged by one structural mutation.
+// kind names the seed and the mutation (an INPUT-derived class for signatures).
+func VerifHostileRoaring(rng *vk.Rand) (data []byte, kind string) {
+	u16 := func(b []byte, v uint16) []byte { return append(b, byte(v), byte(v>>8)) }
+	u32 := func(b []byte, v uint32) []byte { return append(b, byte(v), byte(v>>8), byte(v>>16), byte(v>>24)) }
+	// seed
+	var seed []byte
+	seedKind := ""
+	nconts := 1 + rng.Intn(5)
+	switch rng.Intn(4) {
+	case 0, 1:
+		seedKind = "pilosa"
+		bm := roaring.NewBitmap()
+		for c := 0; c < nconts; c++ {
+			key := uint64(rng.Intn(40))
+			switch rng.Intn(3) {
+			case 0:
+				for i := 0; i < 1+rng.Intn(20); i++ {
+					bm.DirectAdd(key<<16 | uint64(rng.Intn(65536)))
+				}
+			case 1:
+				st := uint64(rng.Intn(60000))
+				for i := uint64(0); i < uint64(10+rng.Intn(3000)); i++ {
+					bm.DirectAdd(key<<16 | (st + i))
+				}
+			case 2:
+				for i := 0; i < 5000; i++ {
+					bm.DirectAdd(key<<16 | uint64(rng.Intn(65536)))
+				}
+			}
+		}
+		var buf bytes.Buffer
+		bm.WriteTo(&buf)
+		seed = append([]byte(nil), buf.Bytes()...)
+		if rng.Chance(1, 3) {
+			// append valid op-log entries (stored-data form)
+			seedKind = "pilosa+ops"
+			ob := roaring.NewBitmap()
+			var ops bytes.Buffer
+			ob.OpWriter = &ops
+			for i := 0; i < 1+rng.Intn(4); i++ {
+				ob.Add(uint64(rng.Intn(1 << 20)))
+				ob.AddN(uint64(rng.Intn(1<<20)), uint64(rng.Intn(1<<20)))
+			}
+			seed = append(seed, ops.Bytes()...)
+		}
+	case 2:
+		seedKind = "official"
+		seed = u32(seed, 12346)
+		seed = u32(seed, uint32(nconts))
+		cards := make([]int, nconts)
+		for c := 0; c < nconts; c++ {
+			cards[c] = 1 + rng.Intn(30)
+			seed = u16(seed, uint16(c*3))
+			seed = u16(seed, uint16(cards[c]-1))
+		}
+		off := len(seed) + 4*nconts
+		for c := 0; c < nconts; c++ {
+			seed = u32(seed, uint32(off))
+			off += 2 * cards[c]
+		}
+		for c := 0; c < nconts; c++ {
+			v := uint16(rng.Intn(1000))
+			for i := 0; i < cards[c]; i++ {
+				seed = u16(seed, v)
+				v += uint16(1 + rng.Intn(50))
+			}
+		}
+	case 3:
+		seedKind = "official-run"
+		if nconts > 3 {
+			nconts = 3
+		}
+		seed = u32(seed, 12347|uint32(nconts-1)<<16)
+		seed = append(seed, byte(1<<uint(nconts)-1))
+		for c := 0; c < nconts; c++ {
+			seed = u16(seed, uint16(c*2))
+			seed = u16(seed, uint16(99))
+		}
+		for c := 0; c < nconts; c++ {
+			seed = u16(seed, 2)
+			seed = u16(seed, 10)
+			seed = u16(seed, 49)
+			seed = u16(seed, 1000)
+			seed = u16(seed, 49)
+		}
+	}
+	data = append([]byte(nil), seed...)
+	mut := rng.Intn(12)
+	names := []string{"valid", "truncate", "truncate-1", "bitflip", "byte-ff", "u32-max", "u32-zero", "count-huge", "offset-bad", "type-swap", "prefix", "random"}
+	switch mut {
+	case 0:
+	case 1:
+		data = data[:rng.Intn(len(data)+1)]
+	case 2:
+		data = data[:len(data)-1]
+	case 3:
+		for k := 0; k < 1+rng.Intn(3); k++ {
+			i := rng.Intn(len(data))
+			data[i] ^= 1 << uint(rng.Intn(8))
+		}
+	case 4:
+		i := rng.Intn(len(data))
+		data[i] = 0xff
+	case 5, 6:
+		if len(data) >= 8 {
+			i := 4 + rng.Intn(minIntV(len(data)-7, 64))
+			v := byte(0xff)
+			if mut == 6 {
+				v = 0
+			}
+			for k := 0; k < 4; k++ {
+				data[i+k] = v
+			}
+		}
+	case 7:
+		// container/key count field
+		if len(data) >= 8 {
+			data[4], data[5], data[6], data[7] = byte(rng.Intn(256)), byte(rng.Intn(256)), byte(rng.Intn(4)), byte(rng.Intn(2)*0x7f)
+		}
+	case 8:
+		// somewhere in the header area: a 4-byte value pointing before the header / past the end
+		if len(data) >= 24 {
+			i := 8 + 4*rng.Intn(minIntV((len(data)-8)/4, 12))
+			vals := []uint32{0, 1, 7, uint32(len(data)), uint32(len(data) - 1), uint32(len(data) + 1), 0x7fffffff, 0xffffffff}
+			v := vals[rng.Intn(len(vals))]
+			data[i], data[i+1], data[i+2], data[i+3] = byte(v), byte(v>>8), byte(v>>16), byte(v>>24)
+		}
+	case 9:
+		// pilosa header: type field of a container (bytes 8+12*k+8..9)
+		if len(data) >= 20 {
+			k := rng.Intn(minIntV((len(data)-8)/12, 5) + 1)
+			i := 8 + 12*k + 8
+			if i+1 < len(data) {
+				data[i] = byte(rng.Intn(6))
+				data[i+1] = byte(rng.Intn(2))
+			}
+		}
+	case 10:
+		data = data[:minIntV(rng.Intn(33), len(data))]
+	case 11:
+		n := rng.Intn(64)
+		data = make([]byte, n)
+		for i := range data {
+			data[i] = byte(rng.Uint64())
+		}
+		if n >= 2 && rng.Bool() {
+			data[0], data[1] = 0x3c, 0x30 // pilosa magic 12348
+		}
+	}
+	return data, seedKind + ":" + names[mut]
+}
+
+func minIntV(a, b int) int {
+	if a < b {
+		return a
+	}
+	return b
 }
